@@ -291,7 +291,22 @@ func (s *clientSocket) Disconnect() {
 
 	s.destroy()
 
-	if connected {
+	// The socket might have connected (or sent its CONNECT packet) since the state was looked at
+	// above: the manager opens the connection on another goroutine. It does not hear of the end
+	// of the connection any more (`destroy` took it off the manager's events), so this is
+	// the place to end it.
+	s.stateMu.Lock()
+	late := s.state == clientSocketConnStateConnected || s.state == clientSocketConnStateConnectPending
+	lateConnected := s.state == clientSocketConnStateConnected
+	if late {
+		s.state = clientSocketConnStateDisconnected
+	}
+	s.stateMu.Unlock()
+	if lateConnected && s.manager.connected() {
+		s.sendControlPacket(parser.PacketTypeDisconnect, nil)
+	}
+
+	if connected || late {
 		s.onClose(ReasonIOClientDisconnect)
 	}
 }
